@@ -125,8 +125,40 @@ def to_z3(pattern, flags=0, full=False, strict_end=False):
     return _seq(tree, True)
 
 
+def second_opinion(solver, timeout_s=8):
+    """The same query, printed as SMT-LIB2, decided by the cvc5 binary (strings + regex theory).
+    -> 'unsat' | 'sat' | 'unknown' | 'unavailable'."""
+    import shutil
+    import subprocess
+    import tempfile
+    exe = shutil.which('cvc5')
+    if not exe:
+        return 'unavailable'
+    fd, path = tempfile.mkstemp(suffix='.smt2', prefix='verif_q_')
+    try:
+        with open(fd, 'w') as f:
+            f.write('(set-logic QF_SLIA)\n' + solver.to_smt2())
+        p = subprocess.run([exe, '--strings-exp', '--tlimit=%d' % (timeout_s * 1000), path], capture_output=True, text=True, timeout=timeout_s + 10)
+        out = p.stdout.strip().splitlines()
+        if '(error' in p.stdout or '(error' in p.stderr:
+            return 'unknown'
+        return out[0] if out and out[0] in ('sat', 'unsat') else 'unknown'
+    except Exception:
+        return 'unknown'
+    finally:
+        try:
+            import os
+            os.unlink(path)
+        except OSError:
+            pass
+
+
+LAST_SECOND = [None]
+
+
 def solve(constraints, var, timeout_ms=60000):
-    """-> (status, witness, seconds) with status in {'unsat', 'sat', 'unknown'}"""
+    """-> (status, witness, seconds) with status in {'unsat', 'sat', 'unknown'}.  An `unsat`
+    of z3 is cross-checked with cvc5; a disagreement makes the query 'unknown' (inconclusive)."""
     s = z3.Solver()
     s.set('timeout', timeout_ms)
     for c in constraints:
@@ -134,6 +166,13 @@ def solve(constraints, var, timeout_ms=60000):
     t0 = time.time()
     r = s.check()
     dt = time.time() - t0
+    LAST_SECOND[0] = None
+    if str(r) == 'unsat':
+        so = second_opinion(s)
+        LAST_SECOND[0] = so
+        if so == 'sat':
+            return 'unknown', 'z3 says unsat, cvc5 says sat', time.time() - t0
+        dt = time.time() - t0
     if str(r) == 'sat':
         m = s.model()
         w = m.eval(var, model_completion=True)
